@@ -55,6 +55,17 @@ fn num(x: f64) -> String {
     }
 }
 
+/// Name of space `s` (0-based) of floor `f` (0-based). Style 0 is HULC's own scheme; the others
+/// are names a user may type: names that are prefixes of each other, names with blanks and
+/// accented letters.
+fn space_name(style: u64, f: usize, s: usize) -> String {
+    match style {
+        1 => format!("P{:02}_E{}", f + 1, ["1", "10", "100"][s % 3]),
+        2 => format!("Planta {} sal\u{f3}n {}", f + 1, ["a", "a b", "a b c"][s % 3]),
+        _ => format!("P{:02}_E{:02}", f + 1, s + 1),
+    }
+}
+
 struct Cons {
     ext: &'static str,
     roof: &'static str,
@@ -146,6 +157,7 @@ pub struct Features {
     pub rotated: bool,
     pub gaps: usize,
     pub interior_windows: usize,
+    pub name_style: u64,
 }
 
 pub fn generate(seed: u64) -> String {
@@ -183,6 +195,8 @@ pub fn generate_with_features(seed: u64) -> (String, Features) {
     let x_origin = *rng.pick(&[0.0, 0.0, -2.5]);
     let y_origin = *rng.pick(&[0.0, 0.0, 3.25]);
     let azimuth = *rng.pick(&[0.0, 0.0, 37.5, 270.0]);
+    let name_style = [0u64, 0, 1, 2][(seed % 4) as usize];
+    feat.name_style = name_style;
     feat.floors = n_floors;
     feat.spaces = n_floors * n_spaces;
     feat.basement = z0 < 0.0;
@@ -284,7 +298,7 @@ pub fn generate_with_features(seed: u64) -> (String, Features) {
         rect(&mut polys, &format!("P{:02}_Poligono1", f + 1), x_origin, x_origin + total_w);
         let mut x = x_origin;
         for (s, w) in widths.iter().enumerate() {
-            rect(&mut polys, &format!("P{:02}_E{:02}_Pol{}", f + 1, s + 1, s + 2), x, x + w);
+            rect(&mut polys, &format!("{}_Pol{}", space_name(name_style, f, s), s + 2), x, x + w);
             x += w;
         }
     }
@@ -310,7 +324,7 @@ pub fn generate_with_features(seed: u64) -> (String, Features) {
         let _ = writeln!(body, "      PREVIOUS      =  \"{}\"", if f == 0 { "Ninguna".to_string() } else { format!("P{:02}", f) });
         let _ = writeln!(body, "      ..");
         for (s, w) in widths.iter().enumerate() {
-            let sname = format!("{}_E{:02}", fname, s + 1);
+            let sname = space_name(name_style, f, s);
             let stype = *rng.pick(&["CONDITIONED", "CONDITIONED", "CONDITIONED", "UNHABITED", "UNCONDITIONED"]);
             let inside = stype == "CONDITIONED" || rng.chance(1, 2);
             let mult = if rng.chance(1, 8) { 3 } else { 1 };
@@ -352,7 +366,7 @@ pub fn generate_with_features(seed: u64) -> (String, Features) {
                     n_med += 1;
                     let _ = writeln!(body, "            \"{}_Med{:03}\" = INTERIOR-WALL", sname, n_med);
                     let _ = writeln!(body, "                  INT-WALL-TYPE = STANDARD  ");
-                    let _ = writeln!(body, "                  NEXT-TO       = \"{}_E{:02}\"  ", fname, s + 2);
+                    let _ = writeln!(body, "                  NEXT-TO       = \"{}\"  ", space_name(name_style, f, s + 1));
                     let _ = writeln!(body, "   COMPROBAR-REQUISITOS-MINIMOS = NO");
                     let _ = writeln!(body, "                  CONSTRUCTION  = \"{}\"  ", CONS.part_v);
                     let _ = writeln!(body, "                  LOCATION      = SPACE-V{}  ", v);
@@ -454,7 +468,7 @@ pub fn generate_with_features(seed: u64) -> (String, Features) {
             } else {
                 let _ = writeln!(body, "            \"{}_FI001\" = INTERIOR-WALL", sname);
                 let _ = writeln!(body, "                  INT-WALL-TYPE = STANDARD  ");
-                let _ = writeln!(body, "                  NEXT-TO       = \"P{:02}_E{:02}\"  ", f, s + 1);
+                let _ = writeln!(body, "                  NEXT-TO       = \"{}\"  ", space_name(name_style, f - 1, s));
                 let _ = writeln!(body, "   COMPROBAR-REQUISITOS-MINIMOS = NO");
                 let _ = writeln!(body, "                  CONSTRUCTION  = \"{}\"  ", CONS.part_h);
                 let _ = writeln!(body, "                  LOCATION      = BOTTOM  ");
